@@ -286,6 +286,38 @@ fn do_action_default_layer(&mut self, coord: KCoord, is_oneshot: bool, value: &u
         final(self).states@ == old(self).states@,
         final(self).oneshot.verif_presses@ == told_other(old(self).oneshot.verif_presses@, is_oneshot, coord),
 
+// Two more arms that count as "a key press" for the one-shot logic (C06): a key with no action
+// (XX), except at the coordinate chords-v2 uses for its synthetic tap-hold trigger, and a custom
+// action, which is also recorded as a state at the pressed coordinate and reported to the caller.
+//@ item keyberon/src/chord.rs const TRIGGER_TAPHOLD_COORD
+//@ fragment keyberon/src/layout.rs fn do_action in `Layout<'a, C, R, T>` block-after `NoOp => {` as do_action_noop
+//@@ wrap impl<'a, const C: usize, const R: usize, T: 'a + Copy> Layout<'a, C, R, T>
+//@@ header
+fn do_action_noop(&mut self, action: &'a Action<'a, T>, coord: KCoord, is_oneshot: bool)
+//@@ spec
+    ensures
+        final(self).oneshot.verif_presses@ == told_other(old(self).oneshot.verif_presses@, is_oneshot || coord == (0u8, 0u16), coord),
+        final(self).rpt_action == Some(action),
+        final(self).states@ == old(self).states@,
+        final(self).default_layer == old(self).default_layer,
+
+//@ fragment keyberon/src/layout.rs fn do_action in `Layout<'a, C, R, T>` block-after `Custom(value) => {` as do_action_custom
+//@@ wrap impl<'a, const C: usize, const R: usize, T: 'a + Copy> Layout<'a, C, R, T>
+//@@ header
+fn do_action_custom(&mut self, action: &'a Action<'a, T>, coord: KCoord, is_oneshot: bool, value: &'a T) -> CustomEvent<'a, T>
+//@@ tail
+    CustomEvent::NoEvent
+//@@ ret r
+//@@ spec
+    ensures
+        final(self).oneshot.verif_presses@ == told_other(old(self).oneshot.verif_presses@, is_oneshot, coord),
+        final(self).rpt_action == Some(action),
+        // recorded at the pressed coordinate (so that the release finds it), and reported exactly
+        // when it was recorded
+        final(self).states@ == pushed(old(self).states@, State::Custom { value, coord }),
+        r == (if old(self).states@.len() < 64 { CustomEvent::Press(value) } else { CustomEvent::NoEvent }),
+        final(self).default_layer == old(self).default_layer,
+
 // ---------------------------------------------------------------------------------------
 // An output chord (e.g. S-1): the head of the MultipleKeyCodes arm of do_action (a FRAGMENT, until
 // the repeat-buffer tail).  Every listed key is recorded as a key state AT THE PRESSED COORDINATE, in
